@@ -45,7 +45,8 @@ def main():
     gens_needed = list(spec.get("gen") or [])
     closure = hv.import_closure(modules + ["Driver.Main"])
     for name, fname in (("grid", "GridTables.lean"), ("anchors", "Anchors.lean"), ("orbits", "OrbitArms.lean"),
-                        ("cores", "LinkCores.lean"), ("attrs", "AttrMoves.lean")):
+                        ("cores", "LinkCores.lean"), ("attrs", "AttrMoves.lean"),
+                        ("links3", "Links3.lean")):
         if name not in gens_needed and any(f.endswith(os.path.join("Gen", fname)) for f in closure):
             gens_needed.append(name)
     if gens_needed:
